@@ -253,10 +253,10 @@ def process_pyro_request(environ, path, parameters, start_response):
                 if method in proxy._pyroAttrs:
                     # retrieve the attribute
                     assert not parameters, "attribute lookup can't have query parameters"
-                    msg = getattr(proxy, method)
+                    msg = proxy.__getattr__(method)
                 else:
                     # call the remote method
-                    msg = getattr(proxy, method)(**parameters)
+                    msg = proxy.__getattr__(method)(**parameters)   # never a local attribute of the Proxy object itself
                     
                 if msg is None or "oneway" in pyro_options:
                     # was a oneway call, no response available
